@@ -185,6 +185,10 @@ class Oracle:
                     if op.get("chunk") is None:
                         return "err"
             return None
+        if k == "rebalance":
+            if not op.get("path"):
+                return "ok"         # DisableRebalancing / EnableRebalancing / RebalanceAllBTrees on an open writer
+            return "err" if self.lookup(op["path"]) is None else None
         if k in ("write", "resize", "setattr", "delattr", "closeds"):
             oid = self.lookup(op["path"])
             if oid is None:
